@@ -93,6 +93,97 @@ def _relational(arg):
     return dict(n=n, status='refuted' if bad else 'proved', bad=bad, paths=len(paths), secs=round(time.time() - t0, 2))
 
 
+# thin wrappers: one constituent, the wrapper adds or checks a fixed decoration.  part(chars of the wrapper's result) is the
+# embedded constituent number as the format describes it; build(constituent result) is the wrapper number made from it
+THIN_SPEC = {
+    'stdnum.no.mva': dict(const='stdnum.no.orgnr', part=lambda ch: ch[:-3], build=lambda ch: ch + [ord(c) for c in 'MVA']),
+    'stdnum.se.vat': dict(const='stdnum.se.orgnr', part=lambda ch: ch[:-2], build=lambda ch: ch + [ord(c) for c in '01']),
+    'stdnum.ch.vat': dict(const='stdnum.ch.uid', part=lambda ch: ch[:12], build=lambda ch: ch + [ord(c) for c in 'MWST']),
+    'stdnum.fi.ytunnus': dict(const='stdnum.fi.alv', part=lambda ch: ch, build=lambda ch: ch),
+    'stdnum.sk.rc': dict(const='stdnum.cz.rc', part=lambda ch: ch, build=lambda ch: ch),
+    # mc.tva returns 'FR' + the TVA number: the relation is stated on the same raw input (fr.tva strips a leading FR from
+    # whatever it is given, so re-validating an extracted part would meet the listed C02 finding of fr.tva instead)
+    'stdnum.mc.tva': dict(const='stdnum.fr.tva', part='raw', build=None),
+}
+
+
+def _thin(arg):
+    """W accepts x with result v  =>  the constituent accepts part(v);   C accepts x with result v  =>  W accepts build(v)"""
+    wname, n = arg
+    isets.warm()
+    absstr.table_lemmas()
+    spec = THIN_SPEC[wname]
+    E = importlib.import_module('stdnum.exceptions')
+    W = front.func_of(importlib.import_module(wname).validate, Func)
+    C = front.func_of(importlib.import_module(spec['const']).validate, Func)
+    t0 = time.time()
+    bad = None
+    total = 0
+    for direction in ('wrapper=>constituent', 'constituent=>wrapper'):
+        first, second, tr = (W, C, spec['part']) if direction.startswith('wrapper') else (C, W, spec['build'])
+        if tr is None:
+            continue
+
+        def run(I, ctx, first=first, second=second, tr=tr):
+            raw = raw_input()
+            try:
+                v = I.call(first, [raw], {}, {}, first.module)
+            except Raise as r:
+                if issubclass(r.cls, E.ValidationError):
+                    return 'rejected'
+                raise
+            if isinstance(v, AbstractStr):
+                v = I.materialise(v)
+            if not isinstance(v, (str, FixedStr)):
+                return 'rejected'
+            arg2 = raw if tr == 'raw' else FixedStr(list(tr(list(tostr(v).chars))))
+            ctx.second_arg = arg2
+            mark = len(I.fnstack)
+            try:
+                I.call(second, [arg2], {}, {}, second.module)
+                return 'both'
+            except Raise as r:
+                del I.fnstack[mark:]
+                if issubclass(r.cls, E.ValidationError):
+                    return ('second rejects', r.cls.__name__)
+                raise
+        try:
+            paths, status = explore_closure(run, budget=4000, time_limit=100, cur_n=n, lazy_rel=True)
+        except (Unsupported, Restart) as u:
+            return dict(n=n, status='undecided', why='outside the subset: %s' % (u if isinstance(u, Unsupported) else 'conflicting normalisations'))
+        except z3.Z3Exception as e:
+            return dict(n=n, status='undecided', why='z3: %s' % str(e)[:60])
+        if status != 'ok':
+            return dict(n=n, status='undecided', why='path budget')
+        total += len(paths)
+        for ctx, r in paths:
+            if isinstance(r, Raise) or not isinstance(r, tuple):
+                continue
+            m = ctx.model()
+            if m is None:
+                continue
+            x = witness_string(ctx, ctx.primary, m)
+            bad = dict(input=x, direction=direction, second=None if isinstance(ctx.second_arg, AbstractStr) else witness_string(ctx, ctx.second_arg, m), why=r[1], approx=ctx.approx)
+            break
+        if bad:
+            break
+    return dict(n=n, status='refuted' if bad else 'proved', bad=bad, paths=total, secs=round(time.time() - t0, 2))
+
+
+def native_thin(wname, x, direction):
+    """-> description if the thin-wrapper relation fails on the real code for raw input x"""
+    spec = THIN_SPEC[wname]
+    first, second, tr = (wname, spec['const'], spec['part']) if direction.startswith('wrapper') else (spec['const'], wname, spec['build'])
+    a = call_real(first + ':validate', [x])
+    if a[0] != 'return' or not isinstance(a[1], str) or tr is None:
+        return None
+    y = x if tr == 'raw' else ''.join(chr(c) for c in tr([ord(c) for c in a[1]]))
+    b = call_real(second + ':validate', [y])
+    if b[0] == 'raise':
+        return '%s accepts %r (-> %r) but %s rejects %r (%s)' % (first, x, a[1], second, y, b[1])
+    return None
+
+
 def native_relation(wname, kind, consts, x):
     """-> None if the relation holds on the real code for input x, else a description"""
     w = call_real(wname + ':is_valid', [x])
@@ -325,6 +416,25 @@ def check(prop, tier, args):
             d = native_relation(w, kind, consts, b['input'])
             rep.refuted(oid, w, 'relation ' + kind, 'wrapper and constituents disagree: %s' % (d or b), dict(function=w + ':validate', input=b['input'], real=d, model=repr(b)[:300]),
                         d is not None, lambda k: native_relation(k['module'], UNIONS[k['module']][0], UNIONS[k['module']][1], k['witness']['input']) is not None,
+                        approx=bool(b.get('approx')) or d is None)
+    titems = [(w, n) for w in THIN_SPEC for n in range(0, nmax + 1)]
+    for item, r, secs in sorted(pool.pool_map(_thin, titems, None, 300), key=lambda x: (x[0][0], x[0][1])):
+        w, n = item
+        c = THIN_SPEC[w]['const']
+        rep.functions.update([w + ':validate', c + ':validate'])
+        oid = 'C09/%s/wrapper-of-%s/len=%s' % (w, c.replace('stdnum.', ''), n)
+        if 'crash' in r:
+            rep.add(oid, 'undecided', detail=r['crash'][:100])
+        elif r['status'] == 'proved':
+            rep.add(oid, 'proved', 'z3', r['secs'], detail='%d joint paths: the wrapper accepts exactly the decorated constituent numbers' % r['paths'])
+        elif r['status'] == 'undecided':
+            rep.add(oid, 'undecided', detail=r['why'][:120])
+        else:
+            b = r['bad']
+            d = native_thin(w, b['input'], b['direction'])
+            rep.refuted(oid, w, 'thin wrapper ' + b['direction'], 'wrapper and constituent disagree: %s' % (d or b), dict(function=w + ':validate', input=b['input'],
+                        direction=b['direction'], real=d, model=repr(b)[:300]), d is not None,
+                        lambda k: native_thin(k['module'], k['witness']['input'], k['witness'].get('direction') or k['key'].replace('thin wrapper ', '')) is not None,
                         approx=bool(b.get('approx')) or d is None)
     bounded(rep, tier)
     rep.assumptions += ['relational runs cover input lengths 0..%d of the normalised input (longer inputs: bounded stand-in only)' % nmax,
